@@ -122,7 +122,7 @@ func genArg(rng *rand.Rand, big bool) string {
 }
 
 func c04(c *wk.Ctx) {
-	c.Note("rule", "each plan: an in-process directory server (unix; tcp too in thorough) hosting the freshly generated Probe service as 2 services x 3 objects; 4-32 caller goroutines over 1-4 sessions (own proxies each) issue calls work(token, arg) with unique tokens and argument sizes 0 B - 256 KiB to random objects while method bodies park and are released in PRNG order (replies cross); some calls are cancelled through their context while parked; one call in four is made through Proxy.CallID, which returns the answer's bytes undecoded; two goroutines call through two proxies obtained from one bus.Cache on one connection; three goroutines call through their own proxies obtained from the hosting server's in-process session; a raw harness connection sends frames of every message type (Post, Cancel, Capability, Reply, Error, Event, Cancelled) addressed to the real action with fresh tokens, each followed by a barrier Call on the same connection and object, then a burst of 20-80 posts and calls pipelined in one write (one response frame per call, none per post, per-token execution counts). Oracle: each call returns once, success => exactly f(own token, own arg) and exec[token]==1; otherwise exec<=1; Post: exec<=1 and no frame with the post's id comes back; any other type: exec==0. Stream huge: a call whose arguments fit but whose result is a string of about the maximal length (reply payload from a few bytes under to a few bytes over the 10 MiB limit): one outcome, own result or an error, never a hang. Stream lent: one session lends a client-hosted Helper object to each of 2-4 Desk objects of one service over its single connection; other sessions call relay() on the desks at the same moment (helper bodies park and are released in PRNG order): each call returns what its own helper computed for its own arguments, that helper ran once for the token, the other helpers never; then a third party gets the lent objects from the desks and calls their parameterless poke() through contexts it cancels in flight: executions <= calls issued. In one plan out of three ONE helper is lent to every desk (several forwarders for one client-hosted object on one connection). Stream large: 6-12 goroutines share one connection and call with arguments (and answers) of 66-300 KiB through Proxy.CallID: a successful answer is byte for byte the encoding of the call's own result. Stream direct: 1-3 objects created with the generated CreateProbe helper are called through their in-process direct proxy and through 1-2 remote sessions at the same moment (two mailboxes feed one object), with the object's statistics / traces switched on in two plans out of three: own result, exactly one execution, every call returns. Distinct non-trivial = distinct plans in which at least two calls overlapped and at least one reply-order inversion was observed.; stream burst = 10 rounds per case on one connection (qnet.Pipe): 4-16 goroutines spinning on a barrier add 1-3 objects each at the same moment to one or two client-side references of one service (bus.NewServiceReference, the service behind ProxyService / CreateXxx), the peer then calls every object once, 4 calls in flight: same oracle (own answer, target ran once, no other object ran)")
+	c.Note("rule", "each plan: an in-process directory server (unix; tcp too in thorough) hosting the freshly generated Probe service as 2 services x 3 objects; 4-32 caller goroutines over 1-4 sessions (own proxies each) issue calls work(token, arg) with unique tokens and argument sizes 0 B - 256 KiB to random objects while method bodies park and are released in PRNG order (replies cross); some calls are cancelled through their context while parked; one call in four is made through Proxy.CallID, which returns the answer's bytes undecoded; two goroutines call through two proxies obtained from one bus.Cache on one connection; three goroutines call through their own proxies obtained from the hosting server's in-process session; a raw harness connection sends frames of every message type (Post, Cancel, Capability, Reply, Error, Event, Cancelled) addressed to the real action with fresh tokens, each followed by a barrier Call on the same connection and object, then a burst of 20-80 posts and calls pipelined in one write (one response frame per call, none per post, per-token execution counts). Oracle: each call returns once, success => exactly f(own token, own arg) and exec[token]==1; otherwise exec<=1; Post: exec<=1 and no frame with the post's id comes back; any other type: exec==0. Stream huge: a call whose arguments fit but whose result is a string of about the maximal length (reply payload from a few bytes under to a few bytes over the 10 MiB limit): one outcome, own result or an error, never a hang. Stream lent: one session lends a client-hosted Helper object to each of 2-4 Desk objects of one service over its single connection; other sessions call relay() on the desks at the same moment (helper bodies park and are released in PRNG order): each call returns what its own helper computed for its own arguments, that helper ran once for the token, the other helpers never; then two raw connections which number their messages alike call assist() of the lent objects through the server at the same moment (equal message identifiers in flight for one client-hosted object: each connection gets the answer to ITS arguments); then a third party gets the lent objects from the desks and calls their parameterless poke() through contexts it cancels in flight: executions <= calls issued. In one plan out of three ONE helper is lent to every desk (several forwarders for one client-hosted object on one connection). Stream large: 6-12 goroutines share one connection and call with arguments (and answers) of 66-300 KiB through Proxy.CallID: a successful answer is byte for byte the encoding of the call's own result. Stream direct: 1-3 objects created with the generated CreateProbe helper are called through their in-process direct proxy and through 1-2 remote sessions at the same moment (two mailboxes feed one object), with the object's statistics / traces switched on in two plans out of three: own result, exactly one execution, every call returns. Distinct non-trivial = distinct plans in which at least two calls overlapped and at least one reply-order inversion was observed.; stream burst = 10 rounds per case on one connection (qnet.Pipe): 4-16 goroutines spinning on a barrier add 1-3 objects each at the same moment to one or two client-side references of one service (bus.NewServiceReference, the service behind ProxyService / CreateXxx), the peer then calls every object once, 4 calls in flight: same oracle (own answer, target ran once, no other object ran)")
 	c.Cases("plan", c.Pick(120, 2000), func(i int, rng *rand.Rand) {
 		transport := "unix"
 		if c.Thorough() && i%3 == 2 {
